@@ -16,15 +16,22 @@ def add(fid, props, key, what):
 
 FIXED = []
 
+
+def fixed(fid, prop, commit, key, what):
+    FIXED.append({"id": fid, "property": prop, "commit": commit, "key": key, "what": what, "line": "fixed: property=%s %s %s" % (prop, commit, what)})
+
+
+fixed("F13", "C20", "4529e92", "C20.value|roundtrip|ErrorV", "Value::ErrorV crossed the plugin FFI boundary as FfiValue::ErrorV and came back as Value::Unit (silently altered); now refused with Err")
+fixed("F1", "C01", "5836695", "C01.bounds|literal-fidelity|<utils::half_float::HFloat as std::convert::TryFrom<f64>>::try_from", "HFloat::try_from accepted |error| < 1e-5: the literal 0.001 became 0.0010004043579101563 on the VM only")
+fixed("F2", "C01", "3082f70", "C01.ops|op|And", "And/Or (and the dormant Not): VM tested operands with `> 0`, WASM with `!= 0`: (0-1) && 1 gave 0.0 on the VM and 1.0 on WASM")
+fixed("F2", "C01", "3082f70", "C01.ops|op|Or", "same defect, Or")
+fixed("F21", "C01", "52a554f", "C01.ops|truthiness|JmpIfNeg|F64Const+F64Gt", "`if` on a NaN condition took the then-branch on the VM (cond <= 0.0 test) and the else-branch on WASM (cond > 0.0)")
+
 # ---- C01 operator templates ---------------------------------------------------------------------------
-add("F2", ["C01"], "C01.ops|op|And", "And: VM tests operands with `> 0`, WASM with `!= 0` (e.g. (0-1) && 1: VM 0.0, WASM 1.0; NaN && NaN: VM 0.0, WASM 1.0)")
-add("F2", ["C01"], "C01.ops|op|Or", "Or: VM tests operands with `> 0`, WASM with `!= 0`")
 add("F3", ["C01"], "C01.ops|op|ModF", "ModF: VM uses f64 `%` (fmod), WASM computes a - trunc(a/b)*b (differs for infinite divisors and in the last bits, e.g. 5.5 % 0.3)")
-add("F21", ["C01"], "C01.ops|truthiness|JmpIfNeg|F64Const+F64Gt", "`if` on a NaN condition: the VM jumps to else only when cond <= 0.0 (NaN takes the then-branch), WASM takes then only when cond > 0.0 (NaN takes the else-branch)")
 
 # ---- bounded encodings (shared rule C01.bounds, also cited by C03) ---------------------------------------
 B = ["C01", "C03"]
-add("F1", ["C01"], "C01.bounds|literal-fidelity|<utils::half_float::HFloat as std::convert::TryFrom<f64>>::try_from", "HFloat::try_from accepts |error| < 1e-5: the literal 0.001 becomes 0.0010004043579101563 on the VM only")
 add("F4", B, "C01.bounds|cast|compiler::bytecodegen::ByteCodeGenerator::get_or_insert_global|usize->u8|call:sum|x1", "GlobalPos = u8: with more than 255 global words global addresses alias on the VM (g43 + g299 = 598 on VM, 342 on WASM)")
 add("F4", B, "C01.bounds|cast|compiler::bytecodegen::ByteCodeGenerator::get_or_insert_global|usize->u8|place:proj|x1", "GlobalPos = u8 (lookup path of the same truncation)")
 add("F6", B, "C01.bounds|checked-unwrap|compiler::bytecodegen::ByteCodeGenerator::emit_instruction|HFloat", "array literal with more than 2049 elements: HFloat::try_from(i as f64).unwrap() panics in the bytecode generator; WASM compiles it")
@@ -60,6 +67,15 @@ add("F20", ["C10"], "C10.binders|binder|code_lam1_finish_typed|compiler::transla
 add("F20", ["C10"], "C10.binders|binder|code_lam_finish_typed|compiler::translate_staging::translate_code", "binders in quoted code keep their source names (code_lam_finish_typed): a macro body's `let x` captures the user's `x` (200.0 instead of 101.0 after renaming; findings/repro/h1.mmm, h2.mmm)")
 add("F20", ["C10"], "C10.binders|binder|code_lam_finish_defaults_typed|compiler::translate_staging::translate_code", "binders in quoted code keep their source names (code_lam_finish_defaults_typed): a macro body's `let x` captures the user's `x` (200.0 instead of 101.0 after renaming; findings/repro/h1.mmm, h2.mmm)")
 add("F20", ["C10"], "C10.binders|binder|code_feed|compiler::translate_staging::translate_code", "binders in quoted code keep their source names (code_feed): a macro body's `let x` captures the user's `x` (200.0 instead of 101.0 after renaming; findings/repro/h1.mmm, h2.mmm)")
+
+# ---- C14 ----
+add("F11", ["C14"], "C14.dispatch|leaf|MatchExpr", "mimium-fmt prints MatchExpr nodes by bare token concatenation: `match s {` becomes `matchs{`, `type Shape = ..` becomes `typeShape=..` (findings/repro/f1.mmm); the output does not parse back to the same program")
+add("F11", ["C14"], "C14.dispatch|leaf|MatchArm", "mimium-fmt prints MatchArm nodes by bare token concatenation: `match s {` becomes `matchs{`, `type Shape = ..` becomes `typeShape=..` (findings/repro/f1.mmm); the output does not parse back to the same program")
+add("F11", ["C14"], "C14.dispatch|leaf|MatchArmList", "mimium-fmt prints MatchArmList nodes by bare token concatenation: `match s {` becomes `matchs{`, `type Shape = ..` becomes `typeShape=..` (findings/repro/f1.mmm); the output does not parse back to the same program")
+add("F11", ["C14"], "C14.dispatch|leaf|MatchPattern", "mimium-fmt prints MatchPattern nodes by bare token concatenation: `match s {` becomes `matchs{`, `type Shape = ..` becomes `typeShape=..` (findings/repro/f1.mmm); the output does not parse back to the same program")
+add("F11", ["C14"], "C14.dispatch|leaf|ConstructorPattern", "mimium-fmt prints ConstructorPattern nodes by bare token concatenation: `match s {` becomes `matchs{`, `type Shape = ..` becomes `typeShape=..` (findings/repro/f1.mmm); the output does not parse back to the same program")
+add("F11", ["C14"], "C14.dispatch|leaf|TypeDecl", "mimium-fmt prints TypeDecl nodes by bare token concatenation: `match s {` becomes `matchs{`, `type Shape = ..` becomes `typeShape=..` (findings/repro/f1.mmm); the output does not parse back to the same program")
+add("F11", ["C14"], "C14.dispatch|leaf|VariantDef", "mimium-fmt prints VariantDef nodes by bare token concatenation: `match s {` becomes `matchs{`, `type Shape = ..` becomes `typeShape=..` (findings/repro/f1.mmm); the output does not parse back to the same program")
 
 
 def main():
